@@ -601,23 +601,27 @@ theorem informers_cover (mc : MonCfg) (s : MState) (h : MS mc s) (hinv : MInv mc
       obtain ⟨i, hi, hp⟩ := (hm.scover o).2 ⟨this, h2⟩
       exact ⟨i, (mem_informers s.m i).2 (Or.inl hi), hp⟩
 
-/-- **C02 `snapshot_eq_matching_partial`** (the headline, repaired code). StartMonitor follows
-AddMonitor with no cluster change in between (what `EnableKubernetesBindings` does in one breath);
-then for EVERY binding configuration, every initial cluster and every later history of object
-writes/deletes (label flips, delete+recreate, …), namespace creations, relabellings and deletions
-(and repeated Starts), with every informer having handled the events of its own watch
-(quiet cluster): the elements of `Snapshot()` are exactly the filtered images of the objects that
-currently match the binding — kind, namespaces (named / selected by label / all), names, label and
-field selector. With `snapshot_nodup`: each once, in key order. The excluded point — the cluster
-changing between the monitor's own List and the registration — is `ghost_witness`. -/
+/-- **C02 `snapshot_eq_matching_partial`** (the headline, repaired code). The cluster may move on
+between AddMonitor (the monitor's own Lists, world `w0`) and StartMonitor by any steps `gap` that lose
+nothing (`GapSafe`: matching namespaces keep matching, matching objects stay under their key and keep
+matching — creations, new namespaces, in-place modifications are free). Then for EVERY binding
+configuration, every initial cluster and every later history of object writes/deletes (label flips,
+delete+recreate, …), namespace creations, relabellings and deletions (and repeated Starts), with
+every informer having handled the events of its own watch (quiet cluster): the elements of
+`Snapshot()` are exactly the filtered images of the objects that currently match the binding — kind,
+namespaces (named / selected by label / all), names, label and field selector. With
+`snapshot_nodup`: each once, in key order. The excluded histories — something lost between the
+monitor's own List and the registration — are `ghost_witness` / `ghost_monitor_witness`, the recorded
+finding. -/
 theorem snapshot_eq_matching_partial (ridOf : Key → Nat) (srt : List Entry → List Entry)
     (hs : SortContract ridOf srt) (mc : MonCfg) (w0 : World) (hw0 : KeysNodup Obj.key w0.objs)
-    (rest : List MStep) (e : Entry) :
-    e ∈ (runMonitor mc w0 (.start :: rest)).m.snapshot srt ↔
-      ∃ o ∈ specMatching mc (runMonitor mc w0 (.start :: rest)).w, e = mkEntry mc.cfg o := by
-  have hms := ms_run mc w0 hw0 rest
-  have hinv := minv_run mc w0 (.start :: rest)
-  generalize runMonitor mc w0 (.start :: rest) = s at hms hinv
+    (gap rest : List MStep) (hg : ∀ st ∈ gap, st ≠ MStep.start)
+    (hsafe : GapSafe mc w0 (runMonitor mc w0 gap).w) (e : Entry) :
+    e ∈ (runMonitor mc w0 (gap ++ .start :: rest)).m.snapshot srt ↔
+      ∃ o ∈ specMatching mc (runMonitor mc w0 (gap ++ .start :: rest)).w, e = mkEntry mc.cfg o := by
+  have hms := ms_run_gap mc w0 hw0 gap rest hg hsafe
+  have hinv := minv_run mc w0 (gap ++ .start :: rest)
+  generalize runMonitor mc w0 (gap ++ .start :: rest) = s at hms hinv
   have hcov := informers_cover mc s hms hinv
   obtain ⟨_, hm, _⟩ := hms
   have hu : Uniform mc.cfg.keepFull s.m.allEntries := by
@@ -654,6 +658,35 @@ theorem snapshot_eq_matching_partial (ridOf : Key → Nat) (srt : List Entry →
     simp only [Option.filter, hp, if_true, Option.map_some] at this
     exact (mem_of_kget _ _ _ _ this).1
 
+theorem gapSafe_refl (mc : MonCfg) (w : World) : GapSafe mc w w :=
+  ⟨fun _ h => h, fun _ o h hp => ⟨o, h, hp⟩⟩
+
+/-- StartMonitor directly after AddMonitor (what `EnableKubernetesBindings` does): no hypothesis on
+the history at all. -/
+theorem snapshot_eq_matching_immediate_start (ridOf : Key → Nat) (srt : List Entry → List Entry)
+    (hs : SortContract ridOf srt) (mc : MonCfg) (w0 : World) (hw0 : KeysNodup Obj.key w0.objs)
+    (rest : List MStep) (e : Entry) :
+    e ∈ (runMonitor mc w0 (.start :: rest)).m.snapshot srt ↔
+      ∃ o ∈ specMatching mc (runMonitor mc w0 (.start :: rest)).w, e = mkEntry mc.cfg o :=
+  snapshot_eq_matching_partial ridOf srt hs mc w0 hw0 [] rest (fun _ h => by cases h) (gapSafe_refl mc w0) e
+
+/-- **witness at monitor level (recorded finding)**: one object, deleted between AddMonitor and
+StartMonitor: `GapSafe` fails, and the started monitor shows the object although nothing matches. -/
+theorem ghost_monitor_witness :
+    let mc : MonCfg := { cfg := { keepFull := false, flt := id, chk := id }, kind := 1 }
+    let w0 : World := { objs := [⟨⟨1, 1, 1⟩, 5, 0⟩], nss := [(1, 0)] }
+    let s := runMonitor mc w0 [.obj (.del ⟨1, 1, 1⟩), .start]
+    (s.m.snapshot (modelSort (fun k => k.name))).length = 1 ∧ specMatching mc s.w = [] ∧
+    ¬ GapSafe mc w0 (runMonitor mc w0 [.obj (.del ⟨1, 1, 1⟩)]).w := by
+  refine ⟨by decide, by decide, ?_⟩
+  intro h
+  obtain ⟨o', ho', _⟩ := h.2 ⟨1, 1, 1⟩ ⟨⟨1, 1, 1⟩, 5, 0⟩ (by decide) (by decide)
+  have hnone : kget Obj.key
+      (runMonitor { cfg := { keepFull := false, flt := id, chk := id }, kind := 1 }
+        { objs := [⟨⟨1, 1, 1⟩, 5, 0⟩], nss := [(1, 0)] } [.obj (.del ⟨1, 1, 1⟩)]).w.objs ⟨1, 1, 1⟩ = none := by decide
+  rw [hnone] at ho'
+  cases ho'
+
 theorem zip_tail_of_pairwise {α : Type} (R : α → α → Prop) (l : List α) (h : l.Pairwise R) :
     ∀ p ∈ l.zip l.tail, R p.1 p.2 := by
   induction l with
@@ -677,14 +710,17 @@ line answering `false` on the implementation's output is a counterexample to the
 theorems state, not to some other predicate. -/
 theorem oracle_snap_sound (ridOf : Key → Nat) (hinj : ∀ a b : Key, ridOf a = ridOf b → a = b)
     (srt : List Entry → List Entry) (hs : SortContract ridOf srt)
-    (mc : MonCfg) (w0 : World) (hw0 : KeysNodup Obj.key w0.objs) (rest : List MStep) :
-    snapshotExact ridOf mc (runMonitor mc w0 (.start :: rest)).w
-      ((runMonitor mc w0 (.start :: rest)).m.snapshot srt) = true := by
-  have hmem := snapshot_eq_matching_partial ridOf srt hs mc w0 hw0 rest
-  obtain ⟨hnd, hsorted, hgood⟩ := snapshot_nodup ridOf srt hs mc w0 (.start :: rest)
-  have hobjs : KeysNodup Obj.key (runMonitor mc w0 (.start :: rest)).w.objs := (ms_run mc w0 hw0 rest).2.1.objsNodup
-  generalize (runMonitor mc w0 (.start :: rest)).m.snapshot srt = got at hmem hnd hsorted hgood
-  generalize (runMonitor mc w0 (.start :: rest)).w = w at hmem hobjs
+    (mc : MonCfg) (w0 : World) (hw0 : KeysNodup Obj.key w0.objs)
+    (gap rest : List MStep) (hg : ∀ st ∈ gap, st ≠ MStep.start)
+    (hsafe : GapSafe mc w0 (runMonitor mc w0 gap).w) :
+    snapshotExact ridOf mc (runMonitor mc w0 (gap ++ .start :: rest)).w
+      ((runMonitor mc w0 (gap ++ .start :: rest)).m.snapshot srt) = true := by
+  have hmem := snapshot_eq_matching_partial ridOf srt hs mc w0 hw0 gap rest hg hsafe
+  obtain ⟨hnd, hsorted, hgood⟩ := snapshot_nodup ridOf srt hs mc w0 (gap ++ .start :: rest)
+  have hobjs : KeysNodup Obj.key (runMonitor mc w0 (gap ++ .start :: rest)).w.objs :=
+    (ms_run_gap mc w0 hw0 gap rest hg hsafe).2.1.objsNodup
+  generalize (runMonitor mc w0 (gap ++ .start :: rest)).m.snapshot srt = got at hmem hnd hsorted hgood
+  generalize (runMonitor mc w0 (gap ++ .start :: rest)).w = w at hmem hobjs
   have hwant : KeysNodup Obj.key (specMatching mc w) := by
     rw [specMatching_eq]; exact keysNodup_filter _ _ _ hobjs
   unfold snapshotExact
